@@ -92,7 +92,7 @@ fn one_case(rng: &mut Rng, case: u64, dir: &str, plan: &Arc<Plan>) -> (String, S
     let mut next_id = 1u64;
     let mut shard: Option<usize> = None;
     plan.armed.store(true, Ordering::SeqCst);
-    for _round in 0..rng.range(1, 4) {
+    for _round in 0..rng.range(1, 5) {
         for _ in 0..rng.range(0, 3) {
             // a key of this run's shard
             let (id, key) = loop {
@@ -118,6 +118,23 @@ fn one_case(rng: &mut Rng, case: u64, dir: &str, plan: &Arc<Plan>) -> (String, S
                 }
                 Err(e) => verdict = format!("FAIL insert-refused {e}"),
             }
+        }
+        // delete some published keys: their extents go through the retirement path of this flush
+        let snap0 = store.verif_snapshot();
+        let mut i = 0;
+        while i < accepted.len() {
+            let published = snap0.iter().any(|x| x.key == accepted[i].1 && x.sector != 0);
+            if published && rng.chance(1, 3) {
+                match store.delete(&accepted[i].1) {
+                    Ok(()) => {
+                        case_text.push_str(&format!(" R{}", accepted[i].0));
+                        accepted.remove(i);
+                        continue;
+                    }
+                    Err(e) => verdict = format!("FAIL delete-refused {e}"),
+                }
+            }
+            i += 1;
         }
         let r = store.flush();
         case_text.push_str(" X");
